@@ -141,7 +141,15 @@ pub fn run(c: &Case) -> Outcome {
         None => return out,
     };
     // session security built from the handshake must interoperate with keys the verifier derives
-    let keys = crypto::session_keys(&exported);
+    // full-strength keys; where the server did not offer 128-bit keys the weakened sealing keys of MS-NLMP 3.4.5.3 are as good
+    let mut candidates = vec![crypto::session_keys(&exported)];
+    if c.challenge.flags & ntlm::NEG_128 == 0 {
+        out.label("no-128-bit-flag");
+        candidates.push(crypto::session_keys_weakened(&exported, if c.challenge.flags & ntlm::NEG_56 != 0 { 7 } else { 5 }));
+    }
+    if c.challenge.flags & ntlm::MANDATORY != ntlm::MANDATORY {
+        out.label("reduced-flags");
+    }
     let (r, _) = call(|| {
         let mut si = n.build_security_interface();
         let a = si.gss_wrapex(&c.message)?;
@@ -150,8 +158,11 @@ pub fn run(c: &Case) -> Outcome {
     });
     match r {
         Res::Ok((a, b)) => {
-            let mut ctx = SealCtx::new(&keys.client_sign, &keys.client_seal);
-            if ctx.unseal(&a).as_deref() != Some(&c.message[..]) || ctx.unseal(&b).as_deref() != Some(&c.message[..]) {
+            let ok = candidates.iter().any(|keys| {
+                let mut ctx = SealCtx::new(&keys.client_sign, &keys.client_seal);
+                ctx.unseal(&a).as_deref() == Some(&c.message[..]) && ctx.unseal(&b).as_deref() == Some(&c.message[..])
+            });
+            if !ok {
                 out.fail("ntlm:session-keys", "messages sealed by build_security_interface() do not unseal under the keys derived from the exported session key");
             }
         }
@@ -250,14 +261,29 @@ pub fn gen_challenge(s: &mut Src, unicode_names: bool) -> Challenge {
     Challenge { flags, server_challenge: s.bytes(8), target_name: s.fill(tn * 2), target_info: info, version: vec![6, 1, 0xB1, 0x1D, 0, 0, 0, 15], payload_order: s.below(2) as u8, gap: s.pick(&[0u8, 0, 0, 1, 4, 8]), max_len_delta: s.pick(&[0u16, 0, 0, 1, 2, 8, 100]) }
 }
 
+/// a server that does not offer every optional capability the client asked for: flags whose absence leaves the NTLMv2
+/// AUTHENTICATE computation as it is (key strength, signing / sealing, key exchange)
+pub fn reduce_flags(mask: u8, c: &mut Challenge) {
+    for (i, f) in [ntlm::NEG_128, ntlm::NEG_SEAL, ntlm::NEG_SIGN, ntlm::NEG_ALWAYS_SIGN, ntlm::NEG_KEY_EXCH, ntlm::NEG_56].iter().enumerate() {
+        if mask & (1 << i) != 0 {
+            c.flags &= !f;
+        }
+    }
+}
+
 pub fn decode(s: &mut Src) -> Case {
     let refused = s.chance(40);
     let other = s.chance(40);
+    // (the subset is taken from two bytes and-ed: few flags dropped at a time more often than many)
+    let reduce = if s.chance(64) { 1 + (s.u8() & s.u8() & 0x3F) } else { 0 };
     let domain = gen_name(s, 16);
     let user = gen_name(s, 20);
     let password = crate::mem::gen_string(s, 32);
     let ascii = domain.is_ascii() && user.is_ascii();
-    let challenge = gen_challenge(s, !ascii);
+    let mut challenge = gen_challenge(s, !ascii);
+    if reduce > 0 {
+        reduce_flags(reduce - 1, &mut challenge);
+    }
     let ml = s.below(64);
     let from_hash = s.chance(100);
     let message = s.fill(ml);
